@@ -147,7 +147,9 @@ def find(I, v, lit):
             if i >= 0:
                 if not terms:
                     return off + i
-                return Sym(INT, z3.Sum(*terms) + (off + i) if len(terms) > 1 else terms[0] + (off + i))
+                t = (z3.Sum(*terms) if len(terms) > 1 else terms[0]) + (off + i)
+                I.p.ghost[('findpos', t.get_id())] = (t, v, lit)
+                return Sym(INT, t)
             off += len(p)
         elif isinstance(p, Digits):
             terms.append(z3.Length(p.t))
@@ -221,6 +223,9 @@ def equal(a, b):
         return NOTFOUND
     from .lib import norm_parts
     pa, pb = norm_parts(pa), norm_parts(pb)
+    d = _definitely_different(pa, pb)
+    if d:
+        return False
     if not _unambiguous(pa) or not _unambiguous(pb):
         return NOTFOUND
     if len(pa) != len(pb):
@@ -266,3 +271,54 @@ def strip(v):
         if ps[-1] == '' and len(ps) > 1 and isinstance(ps[-2], OpaqueStr):
             return NOTFOUND
     return str_from_parts(ps)
+
+
+def _first_class(ps):
+    """'digit' | ('char', c) | None (unknown / empty)"""
+    if not ps:
+        return 'empty'
+    p = ps[0]
+    if isinstance(p, Digits):
+        return 'digit'
+    if isinstance(p, str):
+        return 'digit' if p[0] in '0123456789' else ('char', p[0])
+    return None
+
+
+def _last_class(ps):
+    if not ps:
+        return 'empty'
+    p = ps[-1]
+    if isinstance(p, Digits):
+        return 'digit'
+    if isinstance(p, str):
+        return 'digit' if p[-1] in '0123456789' else ('char', p[-1])
+    return None
+
+
+def _definitely_different(pa, pb):
+    for f in (_first_class, _last_class):
+        a, b = f(pa), f(pb)
+        if a is None or b is None:
+            continue
+        if a != b:
+            return True
+    # count of a non-digit separator character differs (no opaque pieces)
+    if not any(isinstance(p, OpaqueStr) for p in pa + pb):
+        la = ''.join(p for p in pa if isinstance(p, str))
+        lb = ''.join(p for p in pb if isinstance(p, str))
+        nd_a = ''.join(c for c in la if c not in '0123456789')
+        nd_b = ''.join(c for c in lb if c not in '0123456789')
+        if nd_a != nd_b:
+            return True
+    return False
+
+
+def split_at_registered(I, v, idx):
+    """(v[:idx], v[idx:]) when idx is the result of an earlier find() on the same structured string"""
+    if not isinstance(idx, Sym):
+        return NOTFOUND
+    reg = I.p.ghost.get(('findpos', idx.t.get_id()))
+    if reg is None or reg[1] is not v:
+        return NOTFOUND
+    return split_at_find(I, v, reg[2])
